@@ -191,7 +191,7 @@ def current_at(spec, t):
     """Reference evaluation of a current spec (the environment's truth)."""
     if spec is None:
         return {}
-    if spec["kind"] == "const":
+    if spec["kind"] in ("const", "const_callable"):
         return dict(spec["I"])
     return CurrentSchedule(spec)(t)
 
